@@ -25,15 +25,15 @@ _SCHED_ASSUME = [
 PROPS = {
     "C01": {
         "level": "exploration",
-        "parts": [{"engine": "sched", "profile": "c01", "weight": 1}],
-        "rule": "worlds: every DAG shape on 1..4 stages by index (x declaration order, outcomes, allow_failure, conditions, nested pipeline drawn per world), random DAGs beyond; each world under 4 seeded schedules (which parked stage goroutine / Run call proceeds next, passes in between). distinct = canonical event-log hash (timestamps removed, events of one quiescence sorted); non-trivial = at least two stage tasks in flight together at some point",
+        "parts": [{"engine": "sched", "profile": "c01", "weight": 3}, {"engine": "integ", "profile": "c06", "weight": 1}],
+        "rule": "worlds: every DAG shape on 1..4 stages by index (x declaration order, outcomes, allow_failure, conditions, nested pipeline drawn per world), random DAGs beyond; each world under 4 seeded schedules (which parked stage goroutine / Run call proceeds next, passes in between). distinct = canonical event-log hash (timestamps removed, events of one quiescence sorted); non-trivial = at least two stage tasks in flight together at some point. INTEG part (real TaskRunner over simulated processes, the C06 pipeline worlds): no command of a stage starts before every command of each dependency has ended",
         "assumptions": _SCHED_ASSUME,
     },
     "C02": {
         "level": "exploration",
         "cross_outcome": True,
-        "parts": [{"engine": "sched", "profile": "c02", "weight": 1}],
-        "rule": "same worlds as C01; final status of every stage, executed set and Schedule error compared with a pure reference model per run, and final outcome vectors of the 4 schedules of one world compared with each other. distinct = canonical event-log hash; non-trivial = >=2 tasks in flight together",
+        "parts": [{"engine": "sched", "profile": "c02", "weight": 3}, {"engine": "integ", "profile": "c07", "weight": 1}],
+        "rule": "same worlds as C01; final status of every stage, executed set and Schedule error compared with a pure reference model per run, and final outcome vectors of the 4 schedules of one world compared with each other; INTEG part (C07 worlds, real TaskRunner): stage statuses, executed set and Schedule error == model. distinct = canonical event-log hash; non-trivial = >=2 tasks in flight together",
         "assumptions": _SCHED_ASSUME + ["a stage with a false condition below an un-allowed failure: both readings of the statement are accepted for its dependants (DESIGN 5/C02)"],
     },
     "C03": {
@@ -79,8 +79,8 @@ PROPS.update({
     },
     "C12": {
         "level": "fault_enumeration",
-        "parts": [{"engine": "fault", "profile": "c12", "weight": 3}, {"engine": "sched", "profile": "c12s", "weight": 1}],
-        "rule": "for each sampled world (1..4 parallel tasks + 0..3 waiting stages, hooks, conditions, contexts, processes that die at once or ignore the interrupt until killed) and its base schedule, Cancel is injected at EVERY controller step index 0..23 (index mod 24; beyond the end of the run = after everything returned), via TaskRunner.Cancel or Scheduler.Cancel, optionally a second Cancel, or from a stage-condition error; SCHED part: same enumeration (16 positions) against the stub Runner. distinct = canonical event-log hash; all runs are non-trivial (a fault fires in each)",
+        "parts": [{"engine": "fault", "profile": "c12", "weight": 3}, {"engine": "sched", "profile": "c12s", "weight": 1}, {"engine": "cli", "profile": "cli12", "weight": 1}],
+        "rule": "for each sampled world (1..4 parallel tasks + 0..3 waiting stages, hooks, conditions, contexts, processes that die at once or ignore the interrupt until killed) and its base schedule, Cancel is injected at EVERY controller step index 0..23 (index mod 24; beyond the end of the run = after everything returned), via TaskRunner.Cancel or Scheduler.Cancel, optionally a second Cancel, or from a stage-condition error; SCHED part: same enumeration (16 positions) against the stub Runner; CLI part: abort() - what the signal handler calls - at every step of command-line runs of 1..4 targets (the application's own cancel goroutines drive TaskRunner.Cancel and Scheduler.Cancel): the invocation returns, running commands are interrupted, an interrupted invocation returns an error. distinct = canonical event-log hash; all runs are non-trivial (a fault fires in each)",
         "assumptions": _INTEG_ASSUME + ["condition and context service commands run under context.Background() by design and are exempt from 'terminates the commands that are running'"],
     },
     "C08": {
